@@ -37,7 +37,7 @@ def main(tier, seed, prop=PROP):
         conf.update(LG.conformance_strings(m, frozenset(opts)))
     conf = sorted(conf)
     for ch in chunks(conf, 4000):
-        jobs.append((LG.w_list, (exe, MODES, ch, opts, prop, "conformance", True)))
+        jobs.append((LG.w_list, (exe, MODES, ch, opts, prop, "conformance", True, True)))
     bs = set()
     for m in MODES:
         bs.update(LG.byte_suite(m, frozenset(opts)))
@@ -51,13 +51,13 @@ def main(tier, seed, prop=PROP):
             muts.add(gen.mutate(b, rng, rng.randrange(1, 3)))
     corp_all = sorted(set(corp) | {m for m in muts if m and b"\x00" not in m})
     for ch in chunks(corp_all, 4000):
-        jobs.append((LG.w_list, (exe, MODES, ch, opts, prop, "corpus", True)))
+        jobs.append((LG.w_list, (exe, MODES, ch, opts, prop, "corpus", True, True)))
     # length boundary 63..66 in atom / quoted / dotted shapes (decision of the high-level call: <= 64)
     bound = []
     for n in range(60, 70):
         bound += [b"a" * n, b'"' + b"a" * (n - 2) + b'"', (b"a." * n)[:n - 1] + b"a", b"a" * (n - 1) + b".",
                   b'"' + b"a" * (n - 3) + b'\\"']
-    jobs.append((LG.w_list, (exe, MODES, bound, opts, prop, "boundary", True)))
+    jobs.append((LG.w_list, (exe, MODES, bound, opts, prop, "boundary", True, True)))
     # long random walks
     nrand = 60 if tier == "quick" else 600
     maxlen = 65536
